@@ -774,6 +774,24 @@ func TestC18RawRequests(t *testing.T) {
 				c.NonTrivial()
 			}
 		}
+		// a handler that panics (a test service registered beside the node's APIs): the panic is contained, the caller gets
+		// an error response, the server goes on
+		if c.Weighted("crashingHandler", 2, 1) == 1 {
+			n := c.Int("crash.n", 0, 12)
+			body := []byte(fmt.Sprintf(`{"jsonrpc":"2.0","id":77,"method":"veriftest.crash","params":[%d]}`, n))
+			if c.Bool("crash.inBatch") {
+				body = []byte(fmt.Sprintf(`[{"jsonrpc":"2.0","id":1,"method":"ledger.getFrontierMomentum","params":[]},%s]`, body))
+			}
+			c.Checkpoint()
+			res := v.Srv.Post(body, "application/json", false)
+			c.Class("request-to-a-panicking-handler")
+			if res.Panic != nil {
+				c.Failf(keySrvPanic, "a panic in a method handler escaped ServeHTTP: %v", res.Panic)
+			}
+			if n >= 4 && (!bytes.Contains(res.Body, []byte(`"error"`)) || !bytes.Contains(res.Body, []byte(`77`))) {
+				c.Failf("C18/handler-panic-not-an-error-response", "the request whose handler panics was answered with status %d: %s", res.Status, clip(res.Body))
+			}
+		}
 		if msg := sentinel(v); msg != "" {
 			c.Failf(keySrvDead, "after the requests of this case the server no longer answers the sentinel request: %s", msg)
 		}
